@@ -67,6 +67,7 @@ pub enum Act {
 }
 
 pub const ELEMENTWISE: [Act; 5] = [Act::Relu, Act::Leaky, Act::Sigmoid, Act::Tanh, Act::Linear];
+pub const ALL_ACTS: [Act; 6] = [Act::Relu, Act::Leaky, Act::Sigmoid, Act::Tanh, Act::Linear, Act::Softmax];
 
 impl Act {
     pub fn name(&self) -> &'static str {
